@@ -35,6 +35,11 @@ def instances(tier, seed):
                               max_n=3, variants=(0,), clusters=("c2",),
                               progress=("fresh", "running"), deadlines=("loose",),
                               opt_keys=("la", "rtg", "plain"))
+        # three tasks over two resource types of one unit each
+        yield from EI.gen([pol], tier, seed, shapes=("indep3", "chain+1", "fork"),
+                          max_n=3, variants=(5, 6), clusters=("c1g1",),
+                          progress=("fresh",) if not th else ("fresh", "running"),
+                          deadlines=("loose",), opt_keys=("la", "rtg", "plain"))
 
 
 def main(tier, seed):
